@@ -481,45 +481,77 @@ def is_derived(body):
 # ---------------------------------------------------------------------------
 # loops and variant edges
 
-def loop_each_checked(body, next_pred, guard_fn, oc=None):
+def loop_each_checked(body, next_pred, guard_fn, oc=None, require_for_return=True, pass_blocks=(),
+                      elem_switch_rx=None, some_value=1):
     """R-CHK loop form.  For every call c with next_pred(c) (an `Iterator::next`-like
-    producer) whose result is switched on: from the `Some` edge no path leads back to
-    the producer or to a success return without crossing an edge on which the guard
-    literal is TRUE (guard_fn(body, sym, bb) -> edges).  Returns list of
-    (call, ok, detail)."""
+    producer) whose result is switched on — or, with elem_switch_rx, every switch on
+    discriminant(X) with render(X) ~ elem_switch_rx: from the `Some` edge no path leads
+    back to the loop head (or, if require_for_return, to a success return) without
+    crossing an edge on which the guard literal is TRUE (guard_fn(body, sym, bb) -> edges)
+    or a block in pass_blocks.  Returns list of (where, ok, detail)."""
     oc = oc or outcome(body)
     sym = oc.sym
     true_edges = set()
-    for bi, blk in enumerate(body.blocks):
-        if blk["term"]["t"] == "switch" and not blk.get("cleanup"):
-            e = guard_fn(body, sym, bi)
-            if e:
-                true_edges.update(e)
-    out = []
-    for c in body.calls():
-        if not c.is_static or not next_pred(c) or c.dest is None or c.dest["p"]:
-            continue
-        d = c.dest["l"]
-        sws = switch_on_locals(body, {d})
-        if not sws:
-            out.append((c, False, "result of the producer is never matched on"))
-            continue
-        for sw in sws:
-            some_t = None
-            for v, tb in body.switch_edges(sw):
-                if v == 1:
-                    some_t = tb
-            if some_t is None:
-                out.append((c, False, "no Some edge"))
+    if guard_fn is not None:
+        for bi, blk in enumerate(body.blocks):
+            if blk["term"]["t"] == "switch" and not blk.get("cleanup"):
+                e = guard_fn(body, sym, bi)
+                if e:
+                    true_edges.update(e)
+    heads = []     # (head block, switch block, label)
+    if elem_switch_rx is not None:
+        for sw in variant_switches(body, sym, elem_switch_rx):
+            heads.append((sw, sw, body.where(sw)))
+    else:
+        for c in body.calls():
+            if not c.is_static or not next_pred(c) or c.dest is None or c.dest["p"]:
                 continue
-            reach = body.reachable(some_t, removed_blocks=oc.fail_blocks, removed_edges=true_edges)
-            bad = []
-            if c.bb in reach:
-                bad.append("next iteration reachable without the check")
+            sws = switch_on_locals(body, {c.dest["l"]})
+            if not sws:
+                heads.append((c.bb, None, c.where()))
+            for sw in sws:
+                heads.append((c.bb, sw, c.where()))
+    out = []
+    for head, sw, where in heads:
+        if sw is None:
+            out.append((where, False, "result of the producer is never matched on"))
+            continue
+        some_t = None
+        for v, tb in body.switch_edges(sw):
+            if v == some_value:
+                some_t = tb
+        if some_t is None:
+            out.append((where, False, "no Some edge"))
+            continue
+        removed = set(oc.fail_blocks) | set(pass_blocks)
+        reach = body.reachable(some_t, removed_blocks=removed, removed_edges=true_edges)
+        bad = []
+        if head in reach or (sw in reach and sw != head):
+            bad.append("next iteration reachable without the check")
+        if require_for_return:
             rets = [r for r in oc.returns() if r in reach]
             if rets:
                 bad.append("success return reachable without the check")
-            out.append((c, not bad, bad or "element checked on every continuing path (%d guard edge(s))" % len(true_edges)))
+        out.append((where, not bad, bad or "element checked on every continuing path (%d guard edge(s), %d pass block(s))"
+                    % (len(true_edges), len(pass_blocks))))
+    return out
+
+
+def loop_exits(body, head, oc=None):
+    """Edges leaving the strongly connected component of `head` towards a success return."""
+    oc = oc or outcome(body)
+    comp = None
+    for c in body.cycles_sccs():
+        if head in c:
+            comp = set(c)
+    if comp is None:
+        return None
+    reach = oc.success_reach()
+    out = []
+    for u in comp:
+        for v in body.succs(u):
+            if v not in comp and v in reach:
+                out.append((u, v))
     return out
 
 
